@@ -33,7 +33,7 @@ PLAIN = ['assign', 'expr', 'strexpr', 'print', 'noneexpr', 'multi', 'multiexpr',
          'compound_t', 'loopecho', 'loopecho_t', 'funcdef', 'classdef', 'semi', 'semiecho', 'semi2echo', 'comment', 'trailcomment',
          'tripstr', 'blankline', 'blankline2', 'ellipsis', 'ellipsis2', 'normws', 'ellnorm', 'skip', 'skipwant',
          'raise', 'raise_inner', 'raise_file', 'raise_detail', 'raise_detail_mod', 'printraise', 'raise_ell', 'callraise', 'dictecho', 'bytesecho',
-         'wsline', 'longexpr', 'deco'] + [
+         'wsline', 'longexpr', 'deco', 'decoclass', 'decoclass_print', 'decofunc_print'] + [
     # option directives on a CONTINUATION line of a multi-line example (the standard module's directive
     # regex is MULTILINE over the example source, so they apply to that one example)
     'skip_cont_loop', 'skip_cont_call', 'skip_cont_multi', 'skip_cont_want', 'ell_cont', 'ell_cont_silent', 'normws_cont',
@@ -57,7 +57,7 @@ PLAIN = ['assign', 'expr', 'strexpr', 'print', 'noneexpr', 'multi', 'multiexpr',
     'dir_in_tripstr_ell', 'printraise_multi', 'oldstyle_blankline', 'oldstyle_blankline_t', 'printraise_detail', 'raise_then_stdout']
 
 # examples that produce no output and have no want (they share a part with their silent neighbours in xdoctest)
-SILENT = ['assign', 'noneexpr', 'multi', 'funcdef', 'classdef', 'deco', 'tripstr', 'comment']
+SILENT = ['assign', 'noneexpr', 'multi', 'funcdef', 'classdef', 'deco', 'tripstr', 'comment', 'decoclass', 'decoclass']
 CONT_DIRECTIVE = ['skip_cont_loop', 'skip_cont_call', 'skip_cont_multi', 'skip_cont_want', 'ell_cont', 'ell_cont_silent',
                   'normws_cont', 'normws_cont_silent', 'detail_cont', 'detail_cont_silent', 'ellnorm_cont_last',
                   'skip_gap_tripstr', 'skip_gap_call', 'detail_gap']
@@ -85,7 +85,11 @@ def make_namespace():
             cls.__qualname__ = 'Outer.Err%d' % dots
         return cls
 
-    ns = {'T': T, 't': t, 'pv': pv, 'boom': boom, 'deco': (lambda f: f), 'mkexc': mkexc, '__name__': '__main__'}
+    def pdeco(obj):
+        print('decorated %s' % obj.__name__)
+        return obj
+
+    ns = {'T': T, 't': t, 'pv': pv, 'boom': boom, 'deco': (lambda f: f), 'pdeco': pdeco, 'mkexc': mkexc, '__name__': '__main__'}
     return ns, T
 
 
@@ -133,6 +137,13 @@ def example(kind, k):
         src('@deco', 'def g%d(a=t(%d)):' % (K, K), '    return a')
     elif kind == 'classdef':
         src('class C%d(object):' % K, '    v = t(%d)' % K)
+    elif kind == 'decoclass':
+        # a DECORATED class: the statement starts at the decorator line, the `class` line is a continuation line
+        src('@deco', 'class G%d(object):' % K, '    v = t(%d)' % K)
+    elif kind == 'decoclass_print':
+        src('@pdeco', 'class H%d(object):' % K, '    v = t(%d)' % K)
+    elif kind == 'decofunc_print':
+        src('@pdeco', '@deco', 'def q%d(a=t(%d)):' % (K, K), '    return a')
     elif kind == 'semi':
         src('a%d = t(%d); print(a%d + 1)' % (K, K, K))
     elif kind == 'semiecho':
